@@ -552,6 +552,10 @@ fn server_grammar_step_op(class: u8, op: u8, kind: u8) {
     let mut s = mk_server(4, 4, cfg);
     let (rc, timer) = track(&mut s, class);
     let now = any_time();
+    // snapshots for the clauses of C10 (active deadline) and C07 (a pending handshake is not rewritten)
+    let deadline0: Option<u64> = match rc.borrow().state { remote_client::State::Active(ref st) => Some(st.timeout_time_ms), _ => None };
+    let pending0: Option<(u32, u32, u32, u32)> = match rc.borrow().state { remote_client::State::Pending(ref st) => Some((st.local_nonce, st.remote_nonce, st.remote_max_receive_rate, st.remote_max_receive_alloc)), _ => None };
+    let active_timeout_ms = s.config.endpoint_config.active_timeout_ms;
     match op {
         0 => s.handle_frame(addr(A), frame_of_kind(kind), now),
         // handle_events = (a) fire every due timer entry, (b) scan the active connections for the active timeout
@@ -566,6 +570,23 @@ fn server_grammar_step_op(class: u8, op: u8, kind: u8) {
     let c1 = class_of(&s, A);
     let e = summarise(&s);
     assert!(e.other_addr == 0, "[C08] no event for an address that was not involved");
+    // C10: what restarts the active timeout, and when it fires
+    if let Some(d0) = deadline0 {
+        let d1: Option<u64> = match rc.borrow().state { remote_client::State::Active(ref st) => Some(st.timeout_time_ms), _ => None };
+        if op == 0 && (kind == 6 || kind == 7 || kind == 8) {
+            assert!(d1 == Some(now + active_timeout_ms), "[C10] every data, sync or ack frame from the peer restarts the active timeout");
+        } else if let Some(d) = d1 {
+            assert!(d == d0, "[C10] nothing else moves the deadline");
+        }
+        if op == 7 {
+            assert!((e.error == 1) == (now >= d0), "[C10] Timeout is reported in the step in which active_timeout_ms of silence have elapsed, and not before");
+        }
+    }
+    // C07: a pending handshake is completed or forgotten, never rewritten (stale, duplicate or forged handshake frames)
+    if let Some(p0) = pending0 {
+        let p1: Option<(u32, u32, u32, u32)> = match rc.borrow().state { remote_client::State::Pending(ref st) => Some((st.local_nonce, st.remote_nonce, st.remote_max_receive_rate, st.remote_max_receive_alloc)), _ => None };
+        if let Some(p) = p1 { assert!(p == p0, "[C07] no frame, timer or call rewrites the nonces or limits of a pending handshake"); }
+    }
     if op == 6 { assert!(e.n == 0 && c1 == 0, "[C08] drop() ends the connection silently"); }
     match class {
         1 => {
@@ -603,333 +624,333 @@ macro_rules! sg { ($name:ident, $class:expr, $op:expr, $kind:expr) => {
     #[kani::stub(crate::frame::serial::crc::compute, crate::frame::serial::verif_codec::crc_stub)]
     fn $name() { server_grammar_step_op($class, $op, $kind); }
 } }
-//@h props=C08,C03,C09 tier=quick timeout=600 role=server-event-grammar args=--no-memory-safety-checks
+//@h props=C08,C03,C09,C10,C07 tier=quick timeout=600 role=server-event-grammar args=--no-memory-safety-checks also_quick=C07
 //@fn Server::{handle_frame and the handler of this frame type}
 //@bound server tracking address A in state Pending (nonces/limits any; its SYN-ACK resend timer entry: any time, any count <= 10); ONE syn frame from A with every field any, at any time < 2^40
 //@assume VecMap for HashMap; opaque connection model; socket model; nonce source any; crc::compute stubbed; pointer checks off (lifecycle logic only)
 sg!(o8_2_server_pending_frame_syn, 1, 0, 0);
-//@h props=C08,C03,C09 tier=quick timeout=600 role=server-event-grammar args=--no-memory-safety-checks
+//@h props=C08,C03,C09,C10,C07 tier=quick timeout=600 role=server-event-grammar args=--no-memory-safety-checks also_quick=C07
 //@fn Server::{handle_frame and the handler of this frame type}
 //@bound server tracking address A in state Pending (nonces/limits any; its SYN-ACK resend timer entry: any time, any count <= 10); ONE syn_ack frame from A with every field any, at any time < 2^40
 //@assume as o8_2_server_pending_frame_syn
 sg!(o8_2_server_pending_frame_syn_ack, 1, 0, 1);
-//@h props=C08,C03,C09 tier=quick timeout=600 role=server-event-grammar args=--no-memory-safety-checks
+//@h props=C08,C03,C09,C10,C07 tier=quick timeout=600 role=server-event-grammar args=--no-memory-safety-checks also_quick=C07
 //@fn Server::{handle_frame and the handler of this frame type}
 //@bound server tracking address A in state Pending (nonces/limits any; its SYN-ACK resend timer entry: any time, any count <= 10); ONE ack frame from A with every field any, at any time < 2^40
 //@assume as o8_2_server_pending_frame_syn
 sg!(o8_2_server_pending_frame_ack, 1, 0, 2);
-//@h props=C08,C03,C09 tier=quick timeout=600 role=server-event-grammar args=--no-memory-safety-checks
+//@h props=C08,C03,C09,C10,C07 tier=quick timeout=600 role=server-event-grammar args=--no-memory-safety-checks also_quick=C07
 //@fn Server::{handle_frame and the handler of this frame type}
 //@bound server tracking address A in state Pending (nonces/limits any; its SYN-ACK resend timer entry: any time, any count <= 10); ONE error frame from A with every field any, at any time < 2^40
 //@assume as o8_2_server_pending_frame_syn
 sg!(o8_2_server_pending_frame_error, 1, 0, 3);
-//@h props=C08,C03,C09 tier=quick timeout=600 role=server-event-grammar args=--no-memory-safety-checks
+//@h props=C08,C03,C09,C10,C07 tier=quick timeout=600 role=server-event-grammar args=--no-memory-safety-checks also_quick=C07
 //@fn Server::{handle_frame and the handler of this frame type}
 //@bound server tracking address A in state Pending (nonces/limits any; its SYN-ACK resend timer entry: any time, any count <= 10); ONE disconnect frame from A with every field any, at any time < 2^40
 //@assume as o8_2_server_pending_frame_syn
 sg!(o8_2_server_pending_frame_disconnect, 1, 0, 4);
-//@h props=C08,C03,C09 tier=quick timeout=600 role=server-event-grammar args=--no-memory-safety-checks
+//@h props=C08,C03,C09,C10,C07 tier=quick timeout=600 role=server-event-grammar args=--no-memory-safety-checks also_quick=C07
 //@fn Server::{handle_frame and the handler of this frame type}
 //@bound server tracking address A in state Pending (nonces/limits any; its SYN-ACK resend timer entry: any time, any count <= 10); ONE disconnect_ack frame from A with every field any, at any time < 2^40
 //@assume as o8_2_server_pending_frame_syn
 sg!(o8_2_server_pending_frame_disconnect_ack, 1, 0, 5);
-//@h props=C08,C03,C09 tier=quick timeout=600 role=server-event-grammar args=--no-memory-safety-checks
+//@h props=C08,C03,C09,C10,C07 tier=quick timeout=600 role=server-event-grammar args=--no-memory-safety-checks also_quick=C07
 //@fn Server::{handle_frame and the handler of this frame type}
 //@bound server tracking address A in state Pending (nonces/limits any; its SYN-ACK resend timer entry: any time, any count <= 10); ONE data frame from A with every field any, at any time < 2^40
 //@assume as o8_2_server_pending_frame_syn
 sg!(o8_2_server_pending_frame_data, 1, 0, 6);
-//@h props=C08,C03,C09 tier=quick timeout=600 role=server-event-grammar args=--no-memory-safety-checks
+//@h props=C08,C03,C09,C10,C07 tier=quick timeout=600 role=server-event-grammar args=--no-memory-safety-checks also_quick=C07
 //@fn Server::{handle_frame and the handler of this frame type}
 //@bound server tracking address A in state Pending (nonces/limits any; its SYN-ACK resend timer entry: any time, any count <= 10); ONE sync frame from A with every field any, at any time < 2^40
 //@assume as o8_2_server_pending_frame_syn
 sg!(o8_2_server_pending_frame_sync, 1, 0, 7);
-//@h props=C08,C03,C09 tier=quick timeout=600 role=server-event-grammar args=--no-memory-safety-checks
+//@h props=C08,C03,C09,C10,C07 tier=quick timeout=600 role=server-event-grammar args=--no-memory-safety-checks also_quick=C07
 //@fn Server::{handle_frame and the handler of this frame type}
 //@bound server tracking address A in state Pending (nonces/limits any; its SYN-ACK resend timer entry: any time, any count <= 10); ONE ackframe frame from A with every field any, at any time < 2^40
 //@assume as o8_2_server_pending_frame_syn
 sg!(o8_2_server_pending_frame_ackframe, 1, 0, 8);
-//@h props=C08,C03,C09 tier=quick timeout=600 role=server-event-grammar args=--no-memory-safety-checks
+//@h props=C08,C03,C09,C10,C07 tier=quick timeout=600 role=server-event-grammar args=--no-memory-safety-checks also_quick=C07
 //@fn Server::{handle_event, handle_events, step_active_clients, drop}, RemoteClient::{send, disconnect, disconnect_now}
 //@bound server tracking address A in state Pending (nonces/limits any; its SYN-ACK resend timer entry: any time, any count <= 10); ONE operation: its timer entry fires at any time at which it is due (handle_event, the body of the timer loop of handle_events)
 //@assume as o8_2_server_pending_frame_syn; the timer loop of handle_events (peek, break unless due, pop, handle_event) is modelled by the obligation calling handle_event on the due entry (see o18_1_pending_timer)
 sg!(o8_2_server_pending_timer_fires, 1, 1, 0);
-//@h props=C08,C03,C09 tier=quick timeout=600 role=server-event-grammar args=--no-memory-safety-checks
+//@h props=C08,C03,C09,C10,C07 tier=quick timeout=600 role=server-event-grammar args=--no-memory-safety-checks also_quick=C07
 //@fn Server::{handle_event, handle_events, step_active_clients, drop}, RemoteClient::{send, disconnect, disconnect_now}
 //@bound server tracking address A in state Pending (nonces/limits any; its SYN-ACK resend timer entry: any time, any count <= 10); ONE operation: step_active_clients at any time
 //@assume as o8_2_server_pending_frame_syn; the timer loop of handle_events (peek, break unless due, pop, handle_event) is modelled by the obligation calling handle_event on the due entry (see o18_1_pending_timer)
 sg!(o8_2_server_pending_step_active_clients, 1, 2, 0);
-//@h props=C08,C03,C09 tier=quick timeout=600 role=server-event-grammar args=--no-memory-safety-checks
+//@h props=C08,C03,C09,C10,C07 tier=quick timeout=600 role=server-event-grammar args=--no-memory-safety-checks also_quick=C07
 //@fn Server::{handle_event, handle_events, step_active_clients, drop}, RemoteClient::{send, disconnect, disconnect_now}
 //@bound server tracking address A in state Pending (nonces/limits any; its SYN-ACK resend timer entry: any time, any count <= 10); ONE operation: RemoteClient::disconnect()
 //@assume as o8_2_server_pending_frame_syn; the timer loop of handle_events (peek, break unless due, pop, handle_event) is modelled by the obligation calling handle_event on the due entry (see o18_1_pending_timer)
 sg!(o8_2_server_pending_app_disconnect, 1, 3, 0);
-//@h props=C08,C03,C09 tier=quick timeout=600 role=server-event-grammar args=--no-memory-safety-checks
+//@h props=C08,C03,C09,C10,C07 tier=quick timeout=600 role=server-event-grammar args=--no-memory-safety-checks also_quick=C07
 //@fn Server::{handle_event, handle_events, step_active_clients, drop}, RemoteClient::{send, disconnect, disconnect_now}
 //@bound server tracking address A in state Pending (nonces/limits any; its SYN-ACK resend timer entry: any time, any count <= 10); ONE operation: RemoteClient::disconnect_now()
 //@assume as o8_2_server_pending_frame_syn; the timer loop of handle_events (peek, break unless due, pop, handle_event) is modelled by the obligation calling handle_event on the due entry (see o18_1_pending_timer)
 sg!(o8_2_server_pending_app_disconnect_now, 1, 4, 0);
-//@h props=C08,C03,C09 tier=quick timeout=600 role=server-event-grammar args=--no-memory-safety-checks
+//@h props=C08,C03,C09,C10,C07 tier=quick timeout=600 role=server-event-grammar args=--no-memory-safety-checks also_quick=C07
 //@fn Server::{handle_event, handle_events, step_active_clients, drop}, RemoteClient::{send, disconnect, disconnect_now}
 //@bound server tracking address A in state Pending (nonces/limits any; its SYN-ACK resend timer entry: any time, any count <= 10); ONE operation: RemoteClient::send()
 //@assume as o8_2_server_pending_frame_syn; the timer loop of handle_events (peek, break unless due, pop, handle_event) is modelled by the obligation calling handle_event on the due entry (see o18_1_pending_timer)
 sg!(o8_2_server_pending_app_send, 1, 5, 0);
-//@h props=C08,C03,C09 tier=quick timeout=600 role=server-event-grammar args=--no-memory-safety-checks
+//@h props=C08,C03,C09,C10,C07 tier=quick timeout=600 role=server-event-grammar args=--no-memory-safety-checks also_quick=C07
 //@fn Server::{handle_event, handle_events, step_active_clients, drop}, RemoteClient::{send, disconnect, disconnect_now}
 //@bound server tracking address A in state Pending (nonces/limits any; its SYN-ACK resend timer entry: any time, any count <= 10); ONE operation: Server::drop(A)
 //@assume as o8_2_server_pending_frame_syn; the timer loop of handle_events (peek, break unless due, pop, handle_event) is modelled by the obligation calling handle_event on the due entry (see o18_1_pending_timer)
 sg!(o8_2_server_pending_drop, 1, 6, 0);
-//@h props=C08,C03,C09 tier=quick timeout=600 role=server-event-grammar args=--no-memory-safety-checks
+//@h props=C08,C03,C09,C10,C07 tier=quick timeout=600 role=server-event-grammar args=--no-memory-safety-checks also_quick=C07
 //@fn Server::{handle_event, handle_events, step_active_clients, drop}, RemoteClient::{send, disconnect, disconnect_now}
 //@bound server tracking address A in state Pending (nonces/limits any; its SYN-ACK resend timer entry: any time, any count <= 10); ONE operation: handle_events at any time with no timer entry due (the active-timeout scan)
 //@assume as o8_2_server_pending_frame_syn; the timer loop of handle_events (peek, break unless due, pop, handle_event) is modelled by the obligation calling handle_event on the due entry (see o18_1_pending_timer)
 sg!(o8_2_server_pending_timeout_scan, 1, 7, 0);
-//@h props=C08,C03,C09 tier=quick timeout=600 role=server-event-grammar args=--no-memory-safety-checks
+//@h props=C08,C03,C09,C10,C07 tier=quick timeout=600 role=server-event-grammar args=--no-memory-safety-checks
 //@fn Server::{handle_frame and the handler of this frame type}
 //@bound server tracking address A in state Active (deadline any, disconnect signal any; the connection model answers anything and delivers 0..1 packets per receive()); ONE syn frame from A with every field any, at any time < 2^40
 //@assume as o8_2_server_pending_frame_syn
 sg!(o8_2_server_active_frame_syn, 2, 0, 0);
-//@h props=C08,C03,C09 tier=quick timeout=600 role=server-event-grammar args=--no-memory-safety-checks
+//@h props=C08,C03,C09,C10,C07 tier=quick timeout=600 role=server-event-grammar args=--no-memory-safety-checks
 //@fn Server::{handle_frame and the handler of this frame type}
 //@bound server tracking address A in state Active (deadline any, disconnect signal any; the connection model answers anything and delivers 0..1 packets per receive()); ONE syn_ack frame from A with every field any, at any time < 2^40
 //@assume as o8_2_server_pending_frame_syn
 sg!(o8_2_server_active_frame_syn_ack, 2, 0, 1);
-//@h props=C08,C03,C09 tier=quick timeout=600 role=server-event-grammar args=--no-memory-safety-checks
+//@h props=C08,C03,C09,C10,C07 tier=quick timeout=600 role=server-event-grammar args=--no-memory-safety-checks
 //@fn Server::{handle_frame and the handler of this frame type}
 //@bound server tracking address A in state Active (deadline any, disconnect signal any; the connection model answers anything and delivers 0..1 packets per receive()); ONE ack frame from A with every field any, at any time < 2^40
 //@assume as o8_2_server_pending_frame_syn
 sg!(o8_2_server_active_frame_ack, 2, 0, 2);
-//@h props=C08,C03,C09 tier=quick timeout=600 role=server-event-grammar args=--no-memory-safety-checks
+//@h props=C08,C03,C09,C10,C07 tier=quick timeout=600 role=server-event-grammar args=--no-memory-safety-checks
 //@fn Server::{handle_frame and the handler of this frame type}
 //@bound server tracking address A in state Active (deadline any, disconnect signal any; the connection model answers anything and delivers 0..1 packets per receive()); ONE error frame from A with every field any, at any time < 2^40
 //@assume as o8_2_server_pending_frame_syn
 sg!(o8_2_server_active_frame_error, 2, 0, 3);
-//@h props=C08,C03,C09 tier=quick timeout=600 role=server-event-grammar args=--no-memory-safety-checks
+//@h props=C08,C03,C09,C10,C07 tier=quick timeout=600 role=server-event-grammar args=--no-memory-safety-checks
 //@fn Server::{handle_frame and the handler of this frame type}
 //@bound server tracking address A in state Active (deadline any, disconnect signal any; the connection model answers anything and delivers 0..1 packets per receive()); ONE disconnect frame from A with every field any, at any time < 2^40
 //@assume as o8_2_server_pending_frame_syn
 sg!(o8_2_server_active_frame_disconnect, 2, 0, 4);
-//@h props=C08,C03,C09 tier=quick timeout=600 role=server-event-grammar args=--no-memory-safety-checks
+//@h props=C08,C03,C09,C10,C07 tier=quick timeout=600 role=server-event-grammar args=--no-memory-safety-checks
 //@fn Server::{handle_frame and the handler of this frame type}
 //@bound server tracking address A in state Active (deadline any, disconnect signal any; the connection model answers anything and delivers 0..1 packets per receive()); ONE disconnect_ack frame from A with every field any, at any time < 2^40
 //@assume as o8_2_server_pending_frame_syn
 sg!(o8_2_server_active_frame_disconnect_ack, 2, 0, 5);
-//@h props=C08,C03,C09 tier=quick timeout=600 role=server-event-grammar args=--no-memory-safety-checks
+//@h props=C08,C03,C09,C10,C07 tier=quick timeout=600 role=server-event-grammar args=--no-memory-safety-checks also_quick=C10
 //@fn Server::{handle_frame and the handler of this frame type}
 //@bound server tracking address A in state Active (deadline any, disconnect signal any; the connection model answers anything and delivers 0..1 packets per receive()); ONE data frame from A with every field any, at any time < 2^40
 //@assume as o8_2_server_pending_frame_syn
 sg!(o8_2_server_active_frame_data, 2, 0, 6);
-//@h props=C08,C03,C09 tier=quick timeout=600 role=server-event-grammar args=--no-memory-safety-checks
+//@h props=C08,C03,C09,C10,C07 tier=quick timeout=600 role=server-event-grammar args=--no-memory-safety-checks also_quick=C10
 //@fn Server::{handle_frame and the handler of this frame type}
 //@bound server tracking address A in state Active (deadline any, disconnect signal any; the connection model answers anything and delivers 0..1 packets per receive()); ONE sync frame from A with every field any, at any time < 2^40
 //@assume as o8_2_server_pending_frame_syn
 sg!(o8_2_server_active_frame_sync, 2, 0, 7);
-//@h props=C08,C03,C09 tier=quick timeout=600 role=server-event-grammar args=--no-memory-safety-checks
+//@h props=C08,C03,C09,C10,C07 tier=quick timeout=600 role=server-event-grammar args=--no-memory-safety-checks also_quick=C10
 //@fn Server::{handle_frame and the handler of this frame type}
 //@bound server tracking address A in state Active (deadline any, disconnect signal any; the connection model answers anything and delivers 0..1 packets per receive()); ONE ackframe frame from A with every field any, at any time < 2^40
 //@assume as o8_2_server_pending_frame_syn
 sg!(o8_2_server_active_frame_ackframe, 2, 0, 8);
-//@h props=C08,C03,C09 tier=quick timeout=600 role=server-event-grammar args=--no-memory-safety-checks
+//@h props=C08,C03,C09,C10,C07 tier=quick timeout=600 role=server-event-grammar args=--no-memory-safety-checks
 //@fn Server::{handle_event, handle_events, step_active_clients, drop}, RemoteClient::{send, disconnect, disconnect_now}
 //@bound server tracking address A in state Active (deadline any, disconnect signal any; the connection model answers anything and delivers 0..1 packets per receive()); ONE operation: step_active_clients at any time
 //@assume as o8_2_server_pending_frame_syn; the timer loop of handle_events (peek, break unless due, pop, handle_event) is modelled by the obligation calling handle_event on the due entry (see o18_1_pending_timer)
 sg!(o8_2_server_active_step_active_clients, 2, 2, 0);
-//@h props=C08,C03,C09 tier=quick timeout=600 role=server-event-grammar args=--no-memory-safety-checks
+//@h props=C08,C03,C09,C10,C07 tier=quick timeout=600 role=server-event-grammar args=--no-memory-safety-checks
 //@fn Server::{handle_event, handle_events, step_active_clients, drop}, RemoteClient::{send, disconnect, disconnect_now}
 //@bound server tracking address A in state Active (deadline any, disconnect signal any; the connection model answers anything and delivers 0..1 packets per receive()); ONE operation: RemoteClient::disconnect()
 //@assume as o8_2_server_pending_frame_syn; the timer loop of handle_events (peek, break unless due, pop, handle_event) is modelled by the obligation calling handle_event on the due entry (see o18_1_pending_timer)
 sg!(o8_2_server_active_app_disconnect, 2, 3, 0);
-//@h props=C08,C03,C09 tier=quick timeout=600 role=server-event-grammar args=--no-memory-safety-checks
+//@h props=C08,C03,C09,C10,C07 tier=quick timeout=600 role=server-event-grammar args=--no-memory-safety-checks
 //@fn Server::{handle_event, handle_events, step_active_clients, drop}, RemoteClient::{send, disconnect, disconnect_now}
 //@bound server tracking address A in state Active (deadline any, disconnect signal any; the connection model answers anything and delivers 0..1 packets per receive()); ONE operation: RemoteClient::disconnect_now()
 //@assume as o8_2_server_pending_frame_syn; the timer loop of handle_events (peek, break unless due, pop, handle_event) is modelled by the obligation calling handle_event on the due entry (see o18_1_pending_timer)
 sg!(o8_2_server_active_app_disconnect_now, 2, 4, 0);
-//@h props=C08,C03,C09 tier=quick timeout=600 role=server-event-grammar args=--no-memory-safety-checks
+//@h props=C08,C03,C09,C10,C07 tier=quick timeout=600 role=server-event-grammar args=--no-memory-safety-checks
 //@fn Server::{handle_event, handle_events, step_active_clients, drop}, RemoteClient::{send, disconnect, disconnect_now}
 //@bound server tracking address A in state Active (deadline any, disconnect signal any; the connection model answers anything and delivers 0..1 packets per receive()); ONE operation: RemoteClient::send()
 //@assume as o8_2_server_pending_frame_syn; the timer loop of handle_events (peek, break unless due, pop, handle_event) is modelled by the obligation calling handle_event on the due entry (see o18_1_pending_timer)
 sg!(o8_2_server_active_app_send, 2, 5, 0);
-//@h props=C08,C03,C09 tier=quick timeout=600 role=server-event-grammar args=--no-memory-safety-checks
+//@h props=C08,C03,C09,C10,C07 tier=quick timeout=600 role=server-event-grammar args=--no-memory-safety-checks
 //@fn Server::{handle_event, handle_events, step_active_clients, drop}, RemoteClient::{send, disconnect, disconnect_now}
 //@bound server tracking address A in state Active (deadline any, disconnect signal any; the connection model answers anything and delivers 0..1 packets per receive()); ONE operation: Server::drop(A)
 //@assume as o8_2_server_pending_frame_syn; the timer loop of handle_events (peek, break unless due, pop, handle_event) is modelled by the obligation calling handle_event on the due entry (see o18_1_pending_timer)
 sg!(o8_2_server_active_drop, 2, 6, 0);
-//@h props=C08,C03,C09 tier=quick timeout=600 role=server-event-grammar args=--no-memory-safety-checks
+//@h props=C08,C03,C09,C10,C07 tier=quick timeout=600 role=server-event-grammar args=--no-memory-safety-checks also_quick=C10
 //@fn Server::{handle_event, handle_events, step_active_clients, drop}, RemoteClient::{send, disconnect, disconnect_now}
 //@bound server tracking address A in state Active (deadline any, disconnect signal any; the connection model answers anything and delivers 0..1 packets per receive()); ONE operation: handle_events at any time with no timer entry due (the active-timeout scan)
 //@assume as o8_2_server_pending_frame_syn; the timer loop of handle_events (peek, break unless due, pop, handle_event) is modelled by the obligation calling handle_event on the due entry (see o18_1_pending_timer)
 sg!(o8_2_server_active_timeout_scan, 2, 7, 0);
-//@h props=C08,C03,C09 tier=quick timeout=600 role=server-event-grammar args=--no-memory-safety-checks
+//@h props=C08,C03,C09,C10,C07 tier=quick timeout=600 role=server-event-grammar args=--no-memory-safety-checks
 //@fn Server::{handle_frame and the handler of this frame type}
 //@bound server tracking address A in state Closing (its Disconnect resend timer entry: any time, any count <= 10); ONE syn frame from A with every field any, at any time < 2^40
 //@assume as o8_2_server_pending_frame_syn
 sg!(o8_2_server_closing_frame_syn, 3, 0, 0);
-//@h props=C08,C03,C09 tier=quick timeout=600 role=server-event-grammar args=--no-memory-safety-checks
+//@h props=C08,C03,C09,C10,C07 tier=quick timeout=600 role=server-event-grammar args=--no-memory-safety-checks
 //@fn Server::{handle_frame and the handler of this frame type}
 //@bound server tracking address A in state Closing (its Disconnect resend timer entry: any time, any count <= 10); ONE syn_ack frame from A with every field any, at any time < 2^40
 //@assume as o8_2_server_pending_frame_syn
 sg!(o8_2_server_closing_frame_syn_ack, 3, 0, 1);
-//@h props=C08,C03,C09 tier=quick timeout=600 role=server-event-grammar args=--no-memory-safety-checks
+//@h props=C08,C03,C09,C10,C07 tier=quick timeout=600 role=server-event-grammar args=--no-memory-safety-checks
 //@fn Server::{handle_frame and the handler of this frame type}
 //@bound server tracking address A in state Closing (its Disconnect resend timer entry: any time, any count <= 10); ONE ack frame from A with every field any, at any time < 2^40
 //@assume as o8_2_server_pending_frame_syn
 sg!(o8_2_server_closing_frame_ack, 3, 0, 2);
-//@h props=C08,C03,C09 tier=quick timeout=600 role=server-event-grammar args=--no-memory-safety-checks
+//@h props=C08,C03,C09,C10,C07 tier=quick timeout=600 role=server-event-grammar args=--no-memory-safety-checks
 //@fn Server::{handle_frame and the handler of this frame type}
 //@bound server tracking address A in state Closing (its Disconnect resend timer entry: any time, any count <= 10); ONE error frame from A with every field any, at any time < 2^40
 //@assume as o8_2_server_pending_frame_syn
 sg!(o8_2_server_closing_frame_error, 3, 0, 3);
-//@h props=C08,C03,C09 tier=quick timeout=600 role=server-event-grammar args=--no-memory-safety-checks
+//@h props=C08,C03,C09,C10,C07 tier=quick timeout=600 role=server-event-grammar args=--no-memory-safety-checks
 //@fn Server::{handle_frame and the handler of this frame type}
 //@bound server tracking address A in state Closing (its Disconnect resend timer entry: any time, any count <= 10); ONE disconnect frame from A with every field any, at any time < 2^40
 //@assume as o8_2_server_pending_frame_syn
 sg!(o8_2_server_closing_frame_disconnect, 3, 0, 4);
-//@h props=C08,C03,C09 tier=quick timeout=600 role=server-event-grammar args=--no-memory-safety-checks
+//@h props=C08,C03,C09,C10,C07 tier=quick timeout=600 role=server-event-grammar args=--no-memory-safety-checks
 //@fn Server::{handle_frame and the handler of this frame type}
 //@bound server tracking address A in state Closing (its Disconnect resend timer entry: any time, any count <= 10); ONE disconnect_ack frame from A with every field any, at any time < 2^40
 //@assume as o8_2_server_pending_frame_syn
 sg!(o8_2_server_closing_frame_disconnect_ack, 3, 0, 5);
-//@h props=C08,C03,C09 tier=quick timeout=600 role=server-event-grammar args=--no-memory-safety-checks
+//@h props=C08,C03,C09,C10,C07 tier=quick timeout=600 role=server-event-grammar args=--no-memory-safety-checks
 //@fn Server::{handle_frame and the handler of this frame type}
 //@bound server tracking address A in state Closing (its Disconnect resend timer entry: any time, any count <= 10); ONE data frame from A with every field any, at any time < 2^40
 //@assume as o8_2_server_pending_frame_syn
 sg!(o8_2_server_closing_frame_data, 3, 0, 6);
-//@h props=C08,C03,C09 tier=quick timeout=600 role=server-event-grammar args=--no-memory-safety-checks
+//@h props=C08,C03,C09,C10,C07 tier=quick timeout=600 role=server-event-grammar args=--no-memory-safety-checks
 //@fn Server::{handle_frame and the handler of this frame type}
 //@bound server tracking address A in state Closing (its Disconnect resend timer entry: any time, any count <= 10); ONE sync frame from A with every field any, at any time < 2^40
 //@assume as o8_2_server_pending_frame_syn
 sg!(o8_2_server_closing_frame_sync, 3, 0, 7);
-//@h props=C08,C03,C09 tier=quick timeout=600 role=server-event-grammar args=--no-memory-safety-checks
+//@h props=C08,C03,C09,C10,C07 tier=quick timeout=600 role=server-event-grammar args=--no-memory-safety-checks
 //@fn Server::{handle_frame and the handler of this frame type}
 //@bound server tracking address A in state Closing (its Disconnect resend timer entry: any time, any count <= 10); ONE ackframe frame from A with every field any, at any time < 2^40
 //@assume as o8_2_server_pending_frame_syn
 sg!(o8_2_server_closing_frame_ackframe, 3, 0, 8);
-//@h props=C08,C03,C09 tier=quick timeout=600 role=server-event-grammar args=--no-memory-safety-checks
+//@h props=C08,C03,C09,C10,C07 tier=quick timeout=600 role=server-event-grammar args=--no-memory-safety-checks
 //@fn Server::{handle_event, handle_events, step_active_clients, drop}, RemoteClient::{send, disconnect, disconnect_now}
 //@bound server tracking address A in state Closing (its Disconnect resend timer entry: any time, any count <= 10); ONE operation: its timer entry fires at any time at which it is due (handle_event, the body of the timer loop of handle_events)
 //@assume as o8_2_server_pending_frame_syn; the timer loop of handle_events (peek, break unless due, pop, handle_event) is modelled by the obligation calling handle_event on the due entry (see o18_1_pending_timer)
 sg!(o8_2_server_closing_timer_fires, 3, 1, 0);
-//@h props=C08,C03,C09 tier=quick timeout=600 role=server-event-grammar args=--no-memory-safety-checks
+//@h props=C08,C03,C09,C10,C07 tier=quick timeout=600 role=server-event-grammar args=--no-memory-safety-checks
 //@fn Server::{handle_event, handle_events, step_active_clients, drop}, RemoteClient::{send, disconnect, disconnect_now}
 //@bound server tracking address A in state Closing (its Disconnect resend timer entry: any time, any count <= 10); ONE operation: step_active_clients at any time
 //@assume as o8_2_server_pending_frame_syn; the timer loop of handle_events (peek, break unless due, pop, handle_event) is modelled by the obligation calling handle_event on the due entry (see o18_1_pending_timer)
 sg!(o8_2_server_closing_step_active_clients, 3, 2, 0);
-//@h props=C08,C03,C09 tier=quick timeout=600 role=server-event-grammar args=--no-memory-safety-checks
+//@h props=C08,C03,C09,C10,C07 tier=quick timeout=600 role=server-event-grammar args=--no-memory-safety-checks
 //@fn Server::{handle_event, handle_events, step_active_clients, drop}, RemoteClient::{send, disconnect, disconnect_now}
 //@bound server tracking address A in state Closing (its Disconnect resend timer entry: any time, any count <= 10); ONE operation: RemoteClient::disconnect()
 //@assume as o8_2_server_pending_frame_syn; the timer loop of handle_events (peek, break unless due, pop, handle_event) is modelled by the obligation calling handle_event on the due entry (see o18_1_pending_timer)
 sg!(o8_2_server_closing_app_disconnect, 3, 3, 0);
-//@h props=C08,C03,C09 tier=quick timeout=600 role=server-event-grammar args=--no-memory-safety-checks
+//@h props=C08,C03,C09,C10,C07 tier=quick timeout=600 role=server-event-grammar args=--no-memory-safety-checks
 //@fn Server::{handle_event, handle_events, step_active_clients, drop}, RemoteClient::{send, disconnect, disconnect_now}
 //@bound server tracking address A in state Closing (its Disconnect resend timer entry: any time, any count <= 10); ONE operation: RemoteClient::disconnect_now()
 //@assume as o8_2_server_pending_frame_syn; the timer loop of handle_events (peek, break unless due, pop, handle_event) is modelled by the obligation calling handle_event on the due entry (see o18_1_pending_timer)
 sg!(o8_2_server_closing_app_disconnect_now, 3, 4, 0);
-//@h props=C08,C03,C09 tier=quick timeout=600 role=server-event-grammar args=--no-memory-safety-checks
+//@h props=C08,C03,C09,C10,C07 tier=quick timeout=600 role=server-event-grammar args=--no-memory-safety-checks
 //@fn Server::{handle_event, handle_events, step_active_clients, drop}, RemoteClient::{send, disconnect, disconnect_now}
 //@bound server tracking address A in state Closing (its Disconnect resend timer entry: any time, any count <= 10); ONE operation: RemoteClient::send()
 //@assume as o8_2_server_pending_frame_syn; the timer loop of handle_events (peek, break unless due, pop, handle_event) is modelled by the obligation calling handle_event on the due entry (see o18_1_pending_timer)
 sg!(o8_2_server_closing_app_send, 3, 5, 0);
-//@h props=C08,C03,C09 tier=quick timeout=600 role=server-event-grammar args=--no-memory-safety-checks
+//@h props=C08,C03,C09,C10,C07 tier=quick timeout=600 role=server-event-grammar args=--no-memory-safety-checks
 //@fn Server::{handle_event, handle_events, step_active_clients, drop}, RemoteClient::{send, disconnect, disconnect_now}
 //@bound server tracking address A in state Closing (its Disconnect resend timer entry: any time, any count <= 10); ONE operation: Server::drop(A)
 //@assume as o8_2_server_pending_frame_syn; the timer loop of handle_events (peek, break unless due, pop, handle_event) is modelled by the obligation calling handle_event on the due entry (see o18_1_pending_timer)
 sg!(o8_2_server_closing_drop, 3, 6, 0);
-//@h props=C08,C03,C09 tier=quick timeout=600 role=server-event-grammar args=--no-memory-safety-checks
+//@h props=C08,C03,C09,C10,C07 tier=quick timeout=600 role=server-event-grammar args=--no-memory-safety-checks
 //@fn Server::{handle_event, handle_events, step_active_clients, drop}, RemoteClient::{send, disconnect, disconnect_now}
 //@bound server tracking address A in state Closing (its Disconnect resend timer entry: any time, any count <= 10); ONE operation: handle_events at any time with no timer entry due (the active-timeout scan)
 //@assume as o8_2_server_pending_frame_syn; the timer loop of handle_events (peek, break unless due, pop, handle_event) is modelled by the obligation calling handle_event on the due entry (see o18_1_pending_timer)
 sg!(o8_2_server_closing_timeout_scan, 3, 7, 0);
-//@h props=C08,C03,C09 tier=quick timeout=600 role=server-event-grammar args=--no-memory-safety-checks
+//@h props=C08,C03,C09,C10,C07 tier=quick timeout=600 role=server-event-grammar args=--no-memory-safety-checks
 //@fn Server::{handle_frame and the handler of this frame type}
 //@bound server tracking address A in state Closed (its forget timer entry: any time); ONE syn frame from A with every field any, at any time < 2^40
 //@assume as o8_2_server_pending_frame_syn
 sg!(o8_2_server_closed_frame_syn, 4, 0, 0);
-//@h props=C08,C03,C09 tier=quick timeout=600 role=server-event-grammar args=--no-memory-safety-checks
+//@h props=C08,C03,C09,C10,C07 tier=quick timeout=600 role=server-event-grammar args=--no-memory-safety-checks
 //@fn Server::{handle_frame and the handler of this frame type}
 //@bound server tracking address A in state Closed (its forget timer entry: any time); ONE syn_ack frame from A with every field any, at any time < 2^40
 //@assume as o8_2_server_pending_frame_syn
 sg!(o8_2_server_closed_frame_syn_ack, 4, 0, 1);
-//@h props=C08,C03,C09 tier=quick timeout=600 role=server-event-grammar args=--no-memory-safety-checks
+//@h props=C08,C03,C09,C10,C07 tier=quick timeout=600 role=server-event-grammar args=--no-memory-safety-checks
 //@fn Server::{handle_frame and the handler of this frame type}
 //@bound server tracking address A in state Closed (its forget timer entry: any time); ONE ack frame from A with every field any, at any time < 2^40
 //@assume as o8_2_server_pending_frame_syn
 sg!(o8_2_server_closed_frame_ack, 4, 0, 2);
-//@h props=C08,C03,C09 tier=quick timeout=600 role=server-event-grammar args=--no-memory-safety-checks
+//@h props=C08,C03,C09,C10,C07 tier=quick timeout=600 role=server-event-grammar args=--no-memory-safety-checks
 //@fn Server::{handle_frame and the handler of this frame type}
 //@bound server tracking address A in state Closed (its forget timer entry: any time); ONE error frame from A with every field any, at any time < 2^40
 //@assume as o8_2_server_pending_frame_syn
 sg!(o8_2_server_closed_frame_error, 4, 0, 3);
-//@h props=C08,C03,C09 tier=quick timeout=600 role=server-event-grammar args=--no-memory-safety-checks
+//@h props=C08,C03,C09,C10,C07 tier=quick timeout=600 role=server-event-grammar args=--no-memory-safety-checks
 //@fn Server::{handle_frame and the handler of this frame type}
 //@bound server tracking address A in state Closed (its forget timer entry: any time); ONE disconnect frame from A with every field any, at any time < 2^40
 //@assume as o8_2_server_pending_frame_syn
 sg!(o8_2_server_closed_frame_disconnect, 4, 0, 4);
-//@h props=C08,C03,C09 tier=quick timeout=600 role=server-event-grammar args=--no-memory-safety-checks
+//@h props=C08,C03,C09,C10,C07 tier=quick timeout=600 role=server-event-grammar args=--no-memory-safety-checks
 //@fn Server::{handle_frame and the handler of this frame type}
 //@bound server tracking address A in state Closed (its forget timer entry: any time); ONE disconnect_ack frame from A with every field any, at any time < 2^40
 //@assume as o8_2_server_pending_frame_syn
 sg!(o8_2_server_closed_frame_disconnect_ack, 4, 0, 5);
-//@h props=C08,C03,C09 tier=quick timeout=600 role=server-event-grammar args=--no-memory-safety-checks
+//@h props=C08,C03,C09,C10,C07 tier=quick timeout=600 role=server-event-grammar args=--no-memory-safety-checks
 //@fn Server::{handle_frame and the handler of this frame type}
 //@bound server tracking address A in state Closed (its forget timer entry: any time); ONE data frame from A with every field any, at any time < 2^40
 //@assume as o8_2_server_pending_frame_syn
 sg!(o8_2_server_closed_frame_data, 4, 0, 6);
-//@h props=C08,C03,C09 tier=quick timeout=600 role=server-event-grammar args=--no-memory-safety-checks
+//@h props=C08,C03,C09,C10,C07 tier=quick timeout=600 role=server-event-grammar args=--no-memory-safety-checks
 //@fn Server::{handle_frame and the handler of this frame type}
 //@bound server tracking address A in state Closed (its forget timer entry: any time); ONE sync frame from A with every field any, at any time < 2^40
 //@assume as o8_2_server_pending_frame_syn
 sg!(o8_2_server_closed_frame_sync, 4, 0, 7);
-//@h props=C08,C03,C09 tier=quick timeout=600 role=server-event-grammar args=--no-memory-safety-checks
+//@h props=C08,C03,C09,C10,C07 tier=quick timeout=600 role=server-event-grammar args=--no-memory-safety-checks
 //@fn Server::{handle_frame and the handler of this frame type}
 //@bound server tracking address A in state Closed (its forget timer entry: any time); ONE ackframe frame from A with every field any, at any time < 2^40
 //@assume as o8_2_server_pending_frame_syn
 sg!(o8_2_server_closed_frame_ackframe, 4, 0, 8);
-//@h props=C08,C03,C09 tier=quick timeout=600 role=server-event-grammar args=--no-memory-safety-checks
+//@h props=C08,C03,C09,C10,C07 tier=quick timeout=600 role=server-event-grammar args=--no-memory-safety-checks
 //@fn Server::{handle_event, handle_events, step_active_clients, drop}, RemoteClient::{send, disconnect, disconnect_now}
 //@bound server tracking address A in state Closed (its forget timer entry: any time); ONE operation: its timer entry fires at any time at which it is due (handle_event, the body of the timer loop of handle_events)
 //@assume as o8_2_server_pending_frame_syn; the timer loop of handle_events (peek, break unless due, pop, handle_event) is modelled by the obligation calling handle_event on the due entry (see o18_1_pending_timer)
 sg!(o8_2_server_closed_timer_fires, 4, 1, 0);
-//@h props=C08,C03,C09 tier=quick timeout=600 role=server-event-grammar args=--no-memory-safety-checks
+//@h props=C08,C03,C09,C10,C07 tier=quick timeout=600 role=server-event-grammar args=--no-memory-safety-checks
 //@fn Server::{handle_event, handle_events, step_active_clients, drop}, RemoteClient::{send, disconnect, disconnect_now}
 //@bound server tracking address A in state Closed (its forget timer entry: any time); ONE operation: step_active_clients at any time
 //@assume as o8_2_server_pending_frame_syn; the timer loop of handle_events (peek, break unless due, pop, handle_event) is modelled by the obligation calling handle_event on the due entry (see o18_1_pending_timer)
 sg!(o8_2_server_closed_step_active_clients, 4, 2, 0);
-//@h props=C08,C03,C09 tier=quick timeout=600 role=server-event-grammar args=--no-memory-safety-checks
+//@h props=C08,C03,C09,C10,C07 tier=quick timeout=600 role=server-event-grammar args=--no-memory-safety-checks
 //@fn Server::{handle_event, handle_events, step_active_clients, drop}, RemoteClient::{send, disconnect, disconnect_now}
 //@bound server tracking address A in state Closed (its forget timer entry: any time); ONE operation: RemoteClient::disconnect()
 //@assume as o8_2_server_pending_frame_syn; the timer loop of handle_events (peek, break unless due, pop, handle_event) is modelled by the obligation calling handle_event on the due entry (see o18_1_pending_timer)
 sg!(o8_2_server_closed_app_disconnect, 4, 3, 0);
-//@h props=C08,C03,C09 tier=quick timeout=600 role=server-event-grammar args=--no-memory-safety-checks
+//@h props=C08,C03,C09,C10,C07 tier=quick timeout=600 role=server-event-grammar args=--no-memory-safety-checks
 //@fn Server::{handle_event, handle_events, step_active_clients, drop}, RemoteClient::{send, disconnect, disconnect_now}
 //@bound server tracking address A in state Closed (its forget timer entry: any time); ONE operation: RemoteClient::disconnect_now()
 //@assume as o8_2_server_pending_frame_syn; the timer loop of handle_events (peek, break unless due, pop, handle_event) is modelled by the obligation calling handle_event on the due entry (see o18_1_pending_timer)
 sg!(o8_2_server_closed_app_disconnect_now, 4, 4, 0);
-//@h props=C08,C03,C09 tier=quick timeout=600 role=server-event-grammar args=--no-memory-safety-checks
+//@h props=C08,C03,C09,C10,C07 tier=quick timeout=600 role=server-event-grammar args=--no-memory-safety-checks
 //@fn Server::{handle_event, handle_events, step_active_clients, drop}, RemoteClient::{send, disconnect, disconnect_now}
 //@bound server tracking address A in state Closed (its forget timer entry: any time); ONE operation: RemoteClient::send()
 //@assume as o8_2_server_pending_frame_syn; the timer loop of handle_events (peek, break unless due, pop, handle_event) is modelled by the obligation calling handle_event on the due entry (see o18_1_pending_timer)
 sg!(o8_2_server_closed_app_send, 4, 5, 0);
-//@h props=C08,C03,C09 tier=quick timeout=600 role=server-event-grammar args=--no-memory-safety-checks
+//@h props=C08,C03,C09,C10,C07 tier=quick timeout=600 role=server-event-grammar args=--no-memory-safety-checks
 //@fn Server::{handle_event, handle_events, step_active_clients, drop}, RemoteClient::{send, disconnect, disconnect_now}
 //@bound server tracking address A in state Closed (its forget timer entry: any time); ONE operation: Server::drop(A)
 //@assume as o8_2_server_pending_frame_syn; the timer loop of handle_events (peek, break unless due, pop, handle_event) is modelled by the obligation calling handle_event on the due entry (see o18_1_pending_timer)
 sg!(o8_2_server_closed_drop, 4, 6, 0);
-//@h props=C08,C03,C09 tier=quick timeout=600 role=server-event-grammar args=--no-memory-safety-checks
+//@h props=C08,C03,C09,C10,C07 tier=quick timeout=600 role=server-event-grammar args=--no-memory-safety-checks
 //@fn Server::{handle_event, handle_events, step_active_clients, drop}, RemoteClient::{send, disconnect, disconnect_now}
 //@bound server tracking address A in state Closed (its forget timer entry: any time); ONE operation: handle_events at any time with no timer entry due (the active-timeout scan)
 //@assume as o8_2_server_pending_frame_syn; the timer loop of handle_events (peek, break unless due, pop, handle_event) is modelled by the obligation calling handle_event on the due entry (see o18_1_pending_timer)
 sg!(o8_2_server_closed_timeout_scan, 4, 7, 0);
 
-//@h props=C08,C03,C09 tier=quick timeout=600 role=server-event-grammar args=--no-memory-safety-checks
+//@h props=C08,C03,C09,C10,C07 tier=quick timeout=600 role=server-event-grammar args=--no-memory-safety-checks
 //@fn Server::{handle_frame, handle_disconnect}
 //@bound as o8_2_server_active_frame_disconnect, with the connection model delivering one packet in receive()
 //@assume as o8_2_server_pending_frame_syn
 sg!(o8_2_server_active_frame_disconnect_delivering, 2, 0, 16 + 4);
-//@h props=C08,C03,C09 tier=quick timeout=600 role=server-event-grammar args=--no-memory-safety-checks
+//@h props=C08,C03,C09,C10,C07 tier=quick timeout=600 role=server-event-grammar args=--no-memory-safety-checks
 //@fn Server::step_active_clients
 //@bound as o8_2_server_active_step_active_clients, with the connection model delivering one packet in receive()
 //@assume as o8_2_server_pending_frame_syn
 sg!(o8_2_server_active_step_active_clients_delivering, 2, 2, 16);
-//@h props=C08,C03,C10 tier=quick timeout=600 role=server-event-grammar args=--no-memory-safety-checks
+//@h props=C08,C03,C10 tier=quick timeout=600 role=server-event-grammar args=--no-memory-safety-checks also_quick=C10
 //@fn Server::handle_events
 //@bound as o8_2_server_active_timeout_scan, with the connection model delivering one packet in receive()
 //@assume as o8_2_server_pending_frame_syn
